@@ -415,6 +415,15 @@ func (en *Engine) runUntilBranch(st *State) ([]*State, *Terminal, error) {
 						continue
 					}
 				}
+				// a read-only table (package-level map assigned once by the initialiser) looked up with a symbolic key:
+				// one continuation per entry (key == k_i) and one for "no entry" — the switch the table stands for
+				if a, ok := xv.(*AllocV); ok && a.Comment == "makemap" {
+					if _, frozen := st.heap["frozenmap:"+a.Key()]; frozen {
+						if forks := en.lookupFrozen(st, fr, x, a, iv); forks != nil {
+							return forks, nil, nil
+						}
+					}
+				}
 				r := mkIndex(xv, iv, x.Type())
 				if x.CommaOk {
 					tt := x.Type().(*types.Tuple)
@@ -477,6 +486,7 @@ func (en *Engine) runUntilBranch(st *State) ([]*State, *Terminal, error) {
 			if a, ok := mv.(*AllocV); ok && a.Comment == "makemap" {
 				if _, isC := kv.(*ConstV); isC {
 					st.heap["map:"+a.Key()+"["+kv.Key()+"]"] = cell{a, vv}
+					st.heap["mapkey:"+a.Key()+"["+kv.Key()+"]"] = cell{a, kv}
 				} else {
 					st.heap["mapsym:"+a.Key()] = cell{a, kv}
 				}
@@ -1211,6 +1221,24 @@ func normCond(c Val, pol bool) (Val, bool) {
 			case token.LEQ:
 				c, pol = mkBin(token.LSS, x.Y, x.X, bt), !pol
 				continue
+			case token.LSS:
+				// (x + c) < k  ==>  x < k - c   and   k < (x + c)  ==>  k - c < x   (integer induction arithmetic)
+				if k, isK := constInt(x.Y); isK {
+					if s, ok := x.X.(*BinV); ok && s.Op == token.ADD {
+						if cc, isC := constInt(s.Y); isC {
+							c = mkBin(token.LSS, s.X, intV(k-cc), bt)
+							continue
+						}
+					}
+				}
+				if k, isK := constInt(x.X); isK {
+					if s, ok := x.Y.(*BinV); ok && s.Op == token.ADD {
+						if cc, isC := constInt(s.Y); isC {
+							c = mkBin(token.LSS, intV(k-cc), s.X, bt)
+							continue
+						}
+					}
+				}
 			case token.EQL:
 				// canonical operand order: constants last, otherwise by key
 				_, cx := x.X.(*ConstV)
@@ -1522,6 +1550,8 @@ func (p *Prog) constGlobals(en *Engine) map[string]cell {
 		// candidates
 		cand := map[*ssa.Global]bool{}
 		refCand := map[*ssa.Global]bool{}
+		sliceCand := map[*ssa.Global]bool{}
+		mapCand := map[*ssa.Global]bool{}
 		for _, m := range pk.Members {
 			g, ok := m.(*ssa.Global)
 			if !ok {
@@ -1535,6 +1565,15 @@ func (p *Prog) constGlobals(en *Engine) map[string]cell {
 				// concurrency-safe methods keeps denoting the object the initialiser built
 				if ok, _ := p.globalInitOnly(g); ok {
 					refCand[g] = true
+				}
+			} else if mt, isMap := t.Underlying().(*types.Map); isMap && constLikeType(mt.Key()) {
+				if ok, _ := p.globalInitOnly(g); ok {
+					mapCand[g] = true
+				}
+			} else if sl, isSlice := t.Underlying().(*types.Slice); isSlice && constLikeType(sl.Elem()) {
+				// a read-only table: slice of plain values assigned once by the initialiser, only read afterwards
+				if ok, _ := p.globalInitOnly(g); ok {
+					sliceCand[g] = true
 				}
 			}
 		}
@@ -1592,7 +1631,7 @@ func (p *Prog) constGlobals(en *Engine) map[string]cell {
 				}
 			}
 		}
-		if len(cand) == 0 && len(refCand) == 0 {
+		if len(cand) == 0 && len(refCand) == 0 && len(sliceCand) == 0 && len(mapCand) == 0 {
 			continue
 		}
 		initFn := pk.Func("init")
@@ -1635,6 +1674,49 @@ func (p *Prog) constGlobals(en *Engine) map[string]cell {
 			v := sub.load(fin, gv, et)
 			if _, isC := v.(*ConstV); isC {
 				p.globalInit[gv.Key()] = cell{gv, v}
+			}
+		}
+		for g := range mapCand {
+			gv := &GlobalV{G: g}
+			gv.typ = g.Type()
+			gv.key = "&" + shortName(g.String())
+			et := g.Type().Underlying().(*types.Pointer).Elem()
+			mv, isAlloc := sub.load(fin, gv, et).(*AllocV)
+			if !isAlloc || mv.Comment != "makemap" {
+				continue
+			}
+			if _, dirty := fin.dirty[mv.Key()]; dirty {
+				continue
+			}
+			if _, sym := fin.heap["mapsym:"+mv.Key()]; sym {
+				continue
+			}
+			p.globalInit[gv.Key()] = cell{gv, mv}
+			p.globalInit["frozenmap:"+mv.Key()] = cell{mv, boolV(true)}
+			for hk, c := range fin.heap {
+				if strings.HasPrefix(hk, "map:"+mv.Key()+"[") || strings.HasPrefix(hk, "mapkey:"+mv.Key()+"[") {
+					p.globalInit[hk] = c
+				}
+			}
+		}
+		for g := range sliceCand {
+			gv := &GlobalV{G: g}
+			gv.typ = g.Type()
+			gv.key = "&" + shortName(g.String())
+			et := g.Type().Underlying().(*types.Pointer).Elem()
+			sv, isSlice := sub.load(fin, gv, et).(*SliceV)
+			if !isSlice {
+				continue
+			}
+			arr, isAlloc := sv.X.(*AllocV)
+			if !isAlloc {
+				continue
+			}
+			p.globalInit[gv.Key()] = cell{gv, sv}
+			for hk, c := range fin.heap {
+				if db := directBase(c.addr); db != nil && db.Key() == arr.Key() {
+					p.globalInit[hk] = c
+				}
 			}
 		}
 		for g := range refCand {
@@ -1850,4 +1932,76 @@ func (en *Engine) appendElem(st *State, s Val, i Val) (Val, bool) {
 		return nil, false
 	}
 	return es[k], true
+}
+
+// lookupFrozen forks a lookup with a symbolic key in a read-only table into one state per entry plus the miss.
+func (en *Engine) lookupFrozen(st *State, fr *Frame, x *ssa.Lookup, a *AllocV, key Val) []*State {
+	type ent struct {
+		k Val
+		v Val
+	}
+	var ents []ent
+	pfx := "map:" + a.Key() + "["
+	var keys []string
+	for hk := range st.heap {
+		if strings.HasPrefix(hk, pfx) {
+			keys = append(keys, hk)
+		}
+	}
+	sort.Strings(keys)
+	if len(keys) == 0 || len(keys) > 32 {
+		return nil
+	}
+	for _, hk := range keys {
+		c := st.heap[hk]
+		kcell, ok := st.heap["mapkey:"+strings.TrimPrefix(hk, "map:")]
+		if !ok {
+			return nil
+		}
+		kc, ok := kcell.val.(*ConstV)
+		if !ok {
+			return nil
+		}
+		ents = append(ents, ent{kc, c.val})
+	}
+	set := func(s *State, val Val, present bool) {
+		f := s.top()
+		if x.CommaOk {
+			tt := x.Type().(*types.Tuple)
+			if !present {
+				val = zeroOf(tt.At(0).Type())
+			}
+			f.env[x] = mkTuple([]Val{val, boolV(present)})
+		} else {
+			if !present {
+				val = zeroOf(x.Type())
+			}
+			f.env[x] = val
+		}
+	}
+	var out []*State
+	miss := st.clone()
+	missOK := true
+	for _, e := range ents {
+		cnd, pol := normCond(mkBin(token.EQL, key, e.k, types.Typ[types.Bool]), true)
+		if b, known := decide(st, cnd); known {
+			if b == pol {
+				// the path already knows the key: only this entry
+				s := st.clone()
+				set(s, e.v, true)
+				return []*State{s}
+			}
+			continue // known different
+		}
+		s := st.clone()
+		s.facts = append(s.facts, Fact{Cond: cnd, Pol: pol, Instr: x, Seq: len(s.events)})
+		set(s, e.v, true)
+		out = append(out, s)
+		miss.facts = append(miss.facts, Fact{Cond: cnd, Pol: !pol, Instr: x, Seq: len(miss.events)})
+	}
+	if missOK {
+		set(miss, nil, false)
+		out = append(out, miss)
+	}
+	return out
 }
